@@ -137,6 +137,7 @@ struct Config {
     int granule;   // units per granule
     std::function<std::unique_ptr<Proc>()> make;
     bool heavy = false;   // skip in the quadratic modes of the quick tier
+    bool strict = false;  // the processor documents that frame lengths must be a multiple of the granule (decimating converters)
 };
 
 template<template<class, class> class A, class Obj, class SF>
@@ -163,7 +164,9 @@ static arr_real sym_h(int n, uint64_t tag) {   // symmetric coefficient letter
 static std::vector<Config> make_configs(bool T) {
     std::vector<Config> C;
     auto add = [&](const std::string& nm, int width, int gran, std::function<std::unique_ptr<Proc>()> f, bool heavy = false) {
-        C.push_back(Config{nm, width, gran, f, heavy});
+        Config c{nm, width, gran, f, heavy, false};
+        c.strict = gran > 1 && (nm.rfind("FIRDecimator", 0) == 0 || nm.rfind("FIRRateConverter", 0) == 0 || nm.rfind("FIRResampler", 0) == 0);
+        C.push_back(c);
     };
     // ---- direct FIR
     for (int nh : {2, 3, 4, 5, 7, 8, 16, 17, 31, 32, 33, 64, 100, 300}) {
@@ -273,7 +276,8 @@ static double letter_val(int letter, int comp, long long i) {
     switch (letter) {
     case 0: return lcg_val(600 + (uint64_t)comp, (uint64_t)i);                       // dense
     case 1: return (i % 5 == 2) ? (comp == 0 ? 1.0 : -0.5) : 0.0;                    // impulse train
-    default: return (i >= 7) ? (comp % 2 == 0 ? 0.75 : 0.25) : 0.0;                  // step
+    case 2: return (i >= 7) ? (comp % 2 == 0 ? 0.75 : 0.25) : 0.0;                   // step
+    default: return (i == 5 && comp % 2 == 0) ? 1e6 : 1e-3 * lcg_val(650 + (uint64_t)comp, (uint64_t)i);   // 180 dB click in low-level noise
     }
 }
 static std::vector<double> make_stream(const Config& c, int granules, int letter, int tagshift = 0) {
@@ -314,14 +318,17 @@ static RunOut run_frames(const Config& c, const std::vector<double>& stream, con
 
 static double maxabs(const std::vector<double>& v) {
     double m = 0;
-    for (double x : v) m = std::max(m, std::abs(x));
+    for (double x : v)
+        if (std::isfinite(x)) m = std::max(m, std::abs(x));
     return m;
 }
 // returns "" if equal within tolerance
 static std::string cmp(const std::vector<double>& ref, const std::vector<double>& got, double& worst, bool& bitid) {
     if (ref.size() != got.size()) return fmt("output length %zu instead of %zu", got.size(), ref.size());
     double tol = 1e-9 * std::max(maxabs(ref), 1e-300);
+    if (!std::isfinite(tol)) tol = 1e300;
     for (size_t i = 0; i < ref.size(); ++i) {
+        if (biteq(ref[i], got[i]) || (std::isnan(ref[i]) && std::isnan(got[i]))) continue;   // identical (also inf == inf, nan == nan)
         double d = std::abs(ref[i] - got[i]);
         if (!(d <= tol)) return fmt("output[%zu] = %.17g, one-call output %.17g (|delta| %.3g > %.3g)", i, got[i], ref[i], d, tol);
         if (d > 0 || !biteq(ref[i], got[i])) bitid = bitid && (ref[i] == got[i]);
@@ -340,7 +347,7 @@ int main(int argc, char** argv) {
     for (size_t ci = 0; ci < C.size(); ++ci) {
         const Config& c = C[ci];
         const uint64_t chash = fnv(c.name);
-        for (int letter = 0; letter < 3; ++letter) {
+        for (int letter = 0; letter < 4; ++letter) {
             // ---------------- mode comp: all compositions of K1 granules
             if (ctx.take("frame.comp", P().kv("config", c.name).kv("letter", letter).kv("k", K1))) {
                 auto stream = make_stream(c, K1, letter);
@@ -438,6 +445,49 @@ int main(int argc, char** argv) {
                         ctx.worst("pair: |delta|/tol", worst);
                     }
                 }
+            }
+        }
+        // ---------------- mode reject: a frame of a non-documented granularity is rejected and must leave the object unchanged
+        if (c.strict && ctx.take("frame.reject", P().kv("config", c.name))) {
+            const int G = 6;
+            auto stream = make_stream(c, G, 0);
+            RunOut ref = run_frames(c, stream, {G}, nullptr);
+            std::vector<double> junk((size_t)(2 * c.granule + 2) * c.width, 0.125);
+            RunOut got;
+            uint64_t attempts = 0, rejected = 0;
+            try {
+                auto p = c.make();
+                for (int g = 0; g < G; ++g) {
+                    for (int bad : {c.granule - 1, c.granule + 1, 1, 2 * c.granule + 1}) {
+                        if (bad <= 0 || bad % c.granule == 0) continue;
+                        ++attempts;
+                        std::vector<double> o1, o2;
+                        try {
+                            p->run(junk.data(), bad, o1, o2);
+                        } catch (const std::exception&) {
+                            ++rejected;
+                        }
+                    }
+                    p->run(stream.data() + (size_t)g * c.granule * c.width, c.granule, got.out, got.out2);
+                }
+                got.seal();
+            } catch (const std::exception& e) {
+                got.err = e.what();
+            }
+            ctx.transitions += attempts + G;
+            ++ctx.traces;
+            ctx.nontrivial();
+            double worst = 0;
+            bool bitid = true;
+            if (rejected != attempts) {
+                ctx.fail(c.name.substr(0, c.name.find('(')).c_str(), fmt("%llu of %llu frames whose length is not a multiple of the granularity were accepted",
+                                                                         (unsigned long long)(attempts - rejected), (unsigned long long)attempts),
+                         "rejected with an exception", P().kv("mode", "reject"));
+            } else {
+                std::string e = !ref.err.empty() ? ("one-call run threw: " + ref.err) : (got.err.empty() ? cmp(ref.out, got.out, worst, bitid) : ("threw: " + got.err));
+                if (!e.empty())
+                    ctx.fail(c.name.substr(0, c.name.find('(')).c_str(), "valid frames interleaved with rejected frames: " + e,
+                             "a rejected call leaves the object unchanged: same output as the valid frames alone", P().kv("mode", "reject"));
             }
         }
         // ---------------- mode iso: instance isolation
